@@ -173,6 +173,13 @@ async fn software(h: usize, inc: u64, sc: Script) -> turmoil::Result {
         }
         "Err" => {
             rec::emit(json!({"ev":"fin","h":h,"out":"Err","at":at}));
+            if (h as u64 + inc) % 2 == 0 {
+                // the software's own error happens to be a cancelled JoinError: it aborts a
+                // worker task and propagates what joining it returns
+                let worker = tokio::task::spawn_local(std::future::pending::<()>());
+                worker.abort();
+                worker.await?;
+            }
             Err("scripted error")?
         }
         "Panic" => {
@@ -724,7 +731,7 @@ mod c04 {
     use super::*;
     use std::collections::{BTreeMap, VecDeque};
     use std::future::Future;
-    use std::net::{IpAddr, Ipv4Addr};
+    use std::net::{IpAddr, Ipv4Addr, Ipv6Addr};
     use std::rc::Rc;
     use tokio::io::{AsyncReadExt, AsyncWriteExt};
     use tokio::sync::Notify;
@@ -745,6 +752,35 @@ mod c04 {
 
     fn hname(h: usize) -> String {
         format!("h{h}")
+    }
+
+    thread_local! {
+        /// the simulation runs with IPv6 addresses (sockets bind `::`, groups are joined with
+        /// join_multicast_v6)
+        static V6: std::cell::Cell<bool> = const { std::cell::Cell::new(false) };
+    }
+    fn v6() -> bool {
+        V6.with(|v| v.get())
+    }
+    fn any_addr() -> IpAddr {
+        if v6() {
+            IpAddr::V6(Ipv6Addr::UNSPECIFIED)
+        } else {
+            IpAddr::V4(Ipv4Addr::UNSPECIFIED)
+        }
+    }
+    fn group_addr() -> IpAddr {
+        if v6() {
+            IpAddr::V6("ff08::1".parse().unwrap())
+        } else {
+            IpAddr::V4(Ipv4Addr::new(239, 1, 1, 1))
+        }
+    }
+    fn join_group(u: &UdpSocket) -> std::io::Result<()> {
+        match group_addr() {
+            IpAddr::V4(g) => u.join_multicast_v4(g, Ipv4Addr::UNSPECIFIED),
+            IpAddr::V6(g) => u.join_multicast_v6(&g, 0),
+        }
     }
 
     /// drop guard attributed to host h
@@ -847,7 +883,7 @@ mod c04 {
                 let (id, c) = (cmd.id, cmd.c);
                 rec::emit(json!({"ev":"cmd_begin","h":h,"inc":inc,"op":cmd.op,"id":id,"c":c}));
                 match cmd.op.as_str() {
-                    "listen" => match TcpListener::bind((IpAddr::V4(Ipv4Addr::UNSPECIFIED), TCP_PORT)).await {
+                    "listen" => match TcpListener::bind((any_addr(), TCP_PORT)).await {
                         Ok(l) => {
                             slots.borrow_mut().listener = Some(Rc::new(l));
                             res(h, inc, id, "ok", 0);
@@ -949,9 +985,9 @@ mod c04 {
                             }
                         });
                     }
-                    "ubind" => match UdpSocket::bind((IpAddr::V4(Ipv4Addr::UNSPECIFIED), UDP_PORT)).await {
+                    "ubind" => match UdpSocket::bind((any_addr(), UDP_PORT)).await {
                         Ok(u) => {
-                            let j = u.join_multicast_v4(Ipv4Addr::new(239, 1, 1, 1), Ipv4Addr::UNSPECIFIED);
+                            let j = join_group(&u);
                             slots.borrow_mut().udp = Some(Rc::new(u));
                             res(h, inc, id, if j.is_ok() { "ok" } else { "err" }, 0);
                         }
@@ -998,15 +1034,15 @@ mod c04 {
 
     /// h3: UDP echo + TCP echo server;  h4: the client side.  They never talk to h1 / h2.
     async fn bystander(h: usize, notify: Rc<Notify>) -> turmoil::Result {
-        let udp = UdpSocket::bind((IpAddr::V4(Ipv4Addr::UNSPECIFIED), UDP_PORT)).await?;
+        let udp = UdpSocket::bind((any_addr(), UDP_PORT)).await?;
         let mut buf = [0u8; 8];
         // h3 is a member of the same multicast group (address and port) as the sockets of
         // h1 / h2; h4 sends to the group in every step.  A crash of h1 / h2 must not cost h3
         // its membership.
-        let group = Ipv4Addr::new(239, 1, 1, 1);
+        let group = group_addr();
         if h == 3 {
-            udp.join_multicast_v4(group, Ipv4Addr::UNSPECIFIED)?;
-            let l = TcpListener::bind((IpAddr::V4(Ipv4Addr::UNSPECIFIED), TCP_PORT)).await?;
+            join_group(&udp)?;
+            let l = TcpListener::bind((any_addr(), TCP_PORT)).await?;
             tokio::task::spawn_local(async move {
                 let Ok((mut s, peer)) = l.accept().await else { return };
                 tlog(3, format!("accepted {peer}"));
@@ -1065,7 +1101,7 @@ mod c04 {
                 }
                 k = k.wrapping_add(1);
                 let _ = udp.send_to(&[k], (hname(3), UDP_PORT)).await;
-                let _ = udp.send_to(&[0xFF, k], (IpAddr::V4(group), UDP_PORT)).await;
+                let _ = udp.send_to(&[0xFF, k], (group, UDP_PORT)).await;
                 let w = stream.borrow_mut().take();
                 if let Some(mut w) = w {
                     let r = w.write_all(&[k]).await;
@@ -1081,6 +1117,7 @@ mod c04 {
         pub lat_steps: u64,
         pub cap: usize,
         pub lis: usize,
+        pub v6: bool,
     }
 
     pub struct CRun<'a> {
@@ -1102,6 +1139,10 @@ mod c04 {
     impl<'a> CRun<'a> {
         pub fn new(cfg: &CCfg) -> CRun<'a> {
             let mut b = turmoil::Builder::new();
+            V6.with(|v| v.set(cfg.v6));
+            if cfg.v6 {
+                b.ip_version(turmoil::IpVersion::V6);
+            }
             b.tick_duration(ms(cfg.tick))
                 .min_message_latency(ms(cfg.tick * cfg.lat_steps))
                 .max_message_latency(ms(cfg.tick * cfg.lat_steps))
@@ -1134,7 +1175,7 @@ mod c04 {
                 }
             }
             rec::take();
-            rec::emit(json!({"ev":"reset","tick":cfg.tick,"lat":cfg.lat_steps,"cap":cfg.cap,"lis":cfg.lis}));
+            rec::emit(json!({"ev":"reset","tick":cfg.tick,"lat":cfg.lat_steps,"cap":cfg.cap,"lis":cfg.lis,"ip": if cfg.v6 { 6 } else { 4 }}));
             CRun { sim, shared, notifies }
         }
 
@@ -1470,6 +1511,7 @@ mod c04 {
             lat_steps: util::arg_u64(args, "lat", 1),
             cap: util::arg_u64(args, "cap", 1) as usize,
             lis: util::arg_u64(args, "lis", 1) as usize,
+            v6: util::arg_u64(args, "ip", 4) == 6,
         }
     }
 
